@@ -1,8 +1,9 @@
 (* Spec/NumSpelling.v -- number spellings as the serde / serde_json bridges look at them:
    json-number's validator (Number::new), the integer views as_u64 / as_i64
    (<u64|i64 as FromStr>::from_str on the spelling), decimal printing of 64-bit integers
-   (lexical::to_string / itoa), has_decimal_point, the count of significant digits,
-   and the nearest binary64 of a spelling.  Definitions only; executable.
+   (lexical::to_string / itoa), has_decimal_point, and the nearest binary64 of a spelling
+   (what a correctly rounded decimal -> double conversion such as str::parse::<f64>
+   returns).  Definitions only; executable.
    Decimal printing/reading goes through the standard library's Decimal.uint so that the
    round-trip lemmas of DecimalN can be reused. *)
 From Coq Require Import Decimal DecimalN SpecFloat.
@@ -141,33 +142,9 @@ Definition valid_number (l : list N) : bool :=
 (* Number::has_decimal_point *)
 Definition has_decimal_point (l : list N) : bool := existsb (fun c => c =? 0x2E) l.
 
-(* ---- significant digits, as lexical-parse-float counts them (parse.rs:742-778): the
-   digits of the integer and fraction parts with the leading zeros removed ---- *)
-Fixpoint mantissa_digits (l : list N) : list N :=
-  match l with
-  | [] => []
-  | c :: r => if is_e c then [] else if is_digit c then c :: mantissa_digits r else mantissa_digits r
-  end.
-Fixpoint strip_zeros (l : list N) : list N :=
-  match l with
-  | 0x30 :: r => strip_zeros r
-  | _ => l
-  end.
-Definition sig_digits (l : list N) : nat := length (strip_zeros (mantissa_digits l)).
-
 (* ---- the double a spelling denotes: exact decimal, rounded to nearest, ties to even ---- *)
 Definition dbl (l : list N) : spec_float :=
   match read_decimal l with
   | Some d => nearest_double d
   | None => S754_nan
-  end.
-
-(* serde_json's default number parser (feature float_roundtrip off) converts
-   significand (u64) * 10^exponent with one f64 multiplication or division by a tabulated
-   power of ten; that is a single correctly rounded operation exactly when the
-   significand is below 2^53 and the power of ten is a double (|exponent| <= 22) *)
-Definition sj_exact (l : list N) : bool :=
-  match read_decimal l with
-  | Some d => ((d_mant d <? 9007199254740992) && (Z.abs (d_exp d) <=? 22))%Z
-  | None => false
   end.
